@@ -66,3 +66,137 @@ def post(comp, base, code, parsed):
         out.append({"start": start, "end": wait(b["end"]), "file": b["file"], "context": b["context"], "own_base": own,
                     "depth": b["depth"], "top": b["top"], "recs": recs})
     return {"blocks": out, "anomalies": anomalies, "nfiles": len(parsed)}
+
+
+# --- loaded-image stream: what the written containers say about where the bytes go -------------------------------
+# Readers written from the container descriptions (bin: two little-endian words then the bytes; BK tape: pilot, sync
+# marker, per-bit pulse widths, least significant bit first), independent of pdpy11/formats.py and bk_wav.py.  They are
+# only as strict as needed to recover (load address, announced length, payload); the container format itself is C13's.
+
+def read_bin(data):
+    if len(data) < 4:
+        return {"err": "bin container shorter than its 4-byte header"}
+    load = data[0] | (data[1] << 8)
+    length = data[2] | (data[3] << 8)
+    return {"load": load, "length": length, "payload": data[4:].hex()}
+
+
+def _hi_runs(samples):
+    runs, n = [], 0
+    for s in samples:
+        if s >= 128:
+            n += 1
+        elif n:
+            runs.append(n)
+            n = 0
+    if n:
+        runs.append(n)
+    return runs
+
+
+def _bytes_of_bits(bits):
+    return bytes(sum(b << i for i, b in enumerate(bits[k:k + 8])) for k in range(0, len(bits), 8))
+
+
+def read_bk_wav(data, turbo):
+    if data[:4] != b"RIFF" or data[8:12] != b"WAVE" or data[36:40] != b"data":
+        return {"err": "not a RIFF/WAVE file with the data chunk at offset 36"}
+    runs = _hi_runs(data[44:])
+    pos = [0]
+
+    def expect(seq):
+        if runs[pos[0]:pos[0] + len(seq)] != list(seq):
+            raise ValueError("pulse train: expected widths %r at pulse %d, found %r" % (list(seq)[:6], pos[0], runs[pos[0]:pos[0] + 6]))
+        pos[0] += len(seq)
+
+    def bits(n):
+        out = []
+        for _ in range(n):
+            if turbo:
+                w = runs[pos[0]] if pos[0] < len(runs) else None
+                pos[0] += 1
+                if w not in (1, 3):
+                    raise ValueError("pulse train: bit pulse of width %r at pulse %d" % (w, pos[0] - 1))
+                out.append(1 if w == 3 else 0)
+            else:
+                expect([2])
+                w = runs[pos[0]] if pos[0] < len(runs) else None
+                pos[0] += 1
+                if w not in (2, 4):
+                    raise ValueError("pulse train: bit pulse of width %r at pulse %d" % (w, pos[0] - 1))
+                out.append(1 if w == 4 else 0)
+        return out
+
+    try:
+        if turbo:
+            while pos[0] < len(runs) and runs[pos[0]] == 3:
+                pos[0] += 1
+            expect([12])
+            header = _bytes_of_bits(bits(160))
+        else:
+            while pos[0] < len(runs) and runs[pos[0]] == 2:
+                pos[0] += 1
+            expect([8, 4] + [2] * 10 + [8, 4])
+            header = _bytes_of_bits(bits(160))
+            expect([2] * 10 + [8, 4])
+        load = header[0] | (header[1] << 8)
+        length = header[2] | (header[3] << 8)
+        payload = _bytes_of_bits(bits(8 * length))
+        bits(16)  # checksum word: present, its value is C13's business
+    except (ValueError, IndexError) as ex:
+        return {"err": str(ex)[:200]}
+    return {"load": load, "length": length, "payload": payload.hex(), "tape_name": header[4:20].hex()}
+
+
+READERS = {"bin": read_bin, "bk_wav": lambda d: read_bk_wav(d, False), "bk_turbo_wav": lambda d: read_bk_wav(d, True),
+           "raw": lambda d: {"load": None, "length": len(d), "payload": d.hex()}}
+
+
+class _Capture:
+    def __init__(self, store, path):
+        self.store, self.path, self.buf = store, path, bytearray()
+
+    def write(self, data):
+        self.buf += data
+        return len(data)
+
+    def __enter__(self):
+        return self
+
+    def __exit__(self, *exc):
+        self.store.append((self.path, bytes(self.buf)))
+        return False
+
+
+def post_emit(comp, base, code, parsed):
+    """post() plus: every output the program's make_* directives request, produced by the real Compiler.emit_files
+    (open_device replaced by an in-memory writer, nothing touches the disk), and the containers the command line
+    builds for '-o x.bin' / '-o x.raw' (file_formats[...](base, code), as _cli.py does); each is read back here."""
+    import contextlib
+    import io
+    res = post(comp, base, code, parsed)
+    m = impl.load()
+    cm = m["compiler"]
+    written = []
+    old = cm.open_device
+    cm.open_device = lambda path, mode="rb", *a, **k: _Capture(written, path)
+    try:
+        with contextlib.redirect_stderr(io.StringIO()):
+            comp.emit_files(base, code)
+    finally:
+        cm.open_device = old
+    requested = [(e[2], e[3]) for e in comp.emitted_files]
+    outs = []
+    for (fmt, path), (wpath, data) in zip(requested, written) if len(requested) == len(written) else []:
+        outs.append(dict(READERS[fmt](data), fmt=fmt, via="directive", path=path, size=len(data)))
+    for fmt in ("bin", "raw"):
+        try:
+            data = m["formats"].file_formats[fmt](base, bytes(code))
+        except Exception as ex:  # does not fit the 16-bit header: reported by the CLI, no container
+            outs.append({"fmt": fmt, "via": "-o", "refused": type(ex).__name__})
+            continue
+        outs.append(dict(READERS[fmt](data), fmt=fmt, via="-o", path="out." + fmt, size=len(data)))
+    res["containers"] = outs
+    res["requested"] = len(requested)
+    res["written"] = len(written)
+    return res
